@@ -142,7 +142,39 @@ fn direct<D, E1: std::fmt::Display, E2: std::fmt::Display>(mut de: D, value: imp
     Ok(v.0)
 }
 
+thread_local! {
+    static TICK: std::cell::Cell<u32> = std::cell::Cell::new(0);
+}
+
+/// every 8th document is preceded, on the same thread and through every path, by a refused one
+/// (the same document cut short, and with a stray byte): a rejection must leave nothing behind
+fn refused_first(json: bool, doc: &[u8]) {
+    let n = TICK.with(|t| {
+        t.set(t.get().wrapping_add(1));
+        t.get()
+    });
+    if n % 8 != 0 || doc.len() < 2 {
+        return;
+    }
+    let cut = &doc[..doc.len() - 1];
+    let mut stray = doc.to_vec();
+    stray.insert(doc.len() / 2, if json { b'#' } else { 0xff });
+    for bad in [cut, &stray[..]] {
+        let _ = vcommon::catch(|| if json { json_de_paths_raw(bad).len() } else { smile_de_paths_raw(bad).len() });
+    }
+}
+
 pub fn json_de_paths(text: &[u8]) -> Vec<(&'static str, DeResult)> {
+    refused_first(true, text);
+    json_de_paths_raw(text)
+}
+
+pub fn smile_de_paths(bytes: &[u8]) -> Vec<(&'static str, DeResult)> {
+    refused_first(false, bytes);
+    smile_de_paths_raw(bytes)
+}
+
+fn json_de_paths_raw(text: &[u8]) -> Vec<(&'static str, DeResult)> {
     let s = std::str::from_utf8(text).unwrap_or("");
     use conjure_serde::json as cj;
     vec![
@@ -168,7 +200,7 @@ pub fn json_de_paths(text: &[u8]) -> Vec<(&'static str, DeResult)> {
     ]
 }
 
-pub fn smile_de_paths(bytes: &[u8]) -> Vec<(&'static str, DeResult)> {
+fn smile_de_paths_raw(bytes: &[u8]) -> Vec<(&'static str, DeResult)> {
     use conjure_serde::smile as cs;
     let mut m1 = bytes.to_vec();
     let mut m2 = bytes.to_vec();
